@@ -592,10 +592,23 @@ def error_blocks(body):
     (local 0) - or of the return slot of an inlined `helper(..)?` call (locals flagged err_exit by engine/inline.py) - by an
     error term only"""
     out = set()
+    manual = getattr(body, '_manual_qm', None)
+    if manual is None:
+        # return slots of inlined helpers whose result the caller inspects with a hand-written `?`
+        # (`match helper(..) { Ok(v) => v, Err(e) => return Err(e) }`, `if let Err(e) = helper(..) { return Err(e) }`)
+        manual = set()
+        for i, l in enumerate(body.locals):
+            rd = l.get('ret_dest')
+            if rd is not None and not l.get('err_exit') and _manual_question_mark(body, rd) is not None:
+                manual.add(i)
+        try:
+            body._manual_qm = manual
+        except Exception:
+            pass
     for d in defs_in(body, body.cfg.reach):
         if d[1]:
             continue
-        if d[0] == 0 or body.locals[d[0]].get('err_exit'):
+        if d[0] == 0 or body.locals[d[0]].get('err_exit') or d[0] in manual:
             if all(is_err_term(a) for a in alts(d[2])):
                 out.add(d[3])
     return out
